@@ -287,6 +287,11 @@ def r3_representation_switch(ctx):
         m = {k_.value: dotted(v) for k_, v in zip(dd[0].keys, dd[0].values) if isinstance(k_, ast.Constant)}
         ok = m.get("number") == "particles_per_cluster" and m.get("position_ver") == "init_ver_position" and m.get("position_hor") == "init_hor_position"
     ctx.check(ok, cr.qual, "number / position_ver / position_hor filled from the like-named inputs" if ok else "cluster table columns are cross-wired", where=cr, node=dd[0] if dd else cr.node)
+    # ... and from the inputs AS GIVEN: the particle numbers and positions are not re-assigned (rounded,
+    # clipped, converted) inside create_charges - array charge passes through here whenever clusters exist
+    for pn in ("particles_per_cluster", "init_ver_position", "init_hor_position"):
+        redefs = [st_ for st_, _ in local_defs(cr, pn)]
+        ctx.check(not redefs, cr.qual + f"#{pn}-as-given", f"{pn} is stored as given" if not redefs else f"{pn} is rewritten before it is stored ({norm(redefs[0])[:60]}): charge held as clusters no longer equals the charge that was added", where=cr, node=redefs[0] if redefs else cr.node)
     # pixel centres: (index + 1/2) * size, vertical repeated per column, horizontal tiled per row
     for fn, n_ax, n_other, size, outer in (("get_vertical_pixel_center_pos", "num_rows", "num_cols", "pixel_vertical_size", "repeat"), ("get_horizontal_pixel_center_pos", "num_cols", "num_rows", "pixel_horizontal_size", "tile")):
         gf = ctx.func(f"{GEO}:{fn}")
